@@ -126,7 +126,7 @@ pub fn eval_prefix(h: &[Msg], cut: usize) -> Option<(String, String)> {
 pub fn eval_schedules(h: &[Msg], bound: usize, clamp: Option<usize>) -> (u64, u64, usize, Option<(String, String, Value)>) {
     let exp = expect(h);
     let msgs = history_json(h);
-    let env = EnvConfig { chunks: msgs.iter().map(frame).collect(), feeder_task: false, clamp, stdout_cap: None };
+    let env = EnvConfig { chunks: msgs.iter().map(frame).collect(), feeder_task: false, clamp, stdout_cap: None, delay_bounded: false };
     let e = sched::explore(&env, bound);
     let case = |sched: &[usize]| json!({"history": class_string(h), "schedule": sched, "bound": bound, "clamp": clamp});
     if let Some((msg, s)) = &e.abort {
@@ -279,7 +279,7 @@ pub fn replay(case: &Value) -> Vec<Failure> {
     } else if let Some(s) = case.get("schedule").and_then(|v| v.as_array()) {
         let sch: Vec<usize> = s.iter().filter_map(|v| v.as_u64().map(|x| x as usize)).collect();
         let clamp = case["clamp"].as_u64().map(|x| x as usize);
-        let env = EnvConfig { chunks: history_json(&h).iter().map(frame).collect(), feeder_task: false, clamp, stdout_cap: None };
+        let env = EnvConfig { chunks: history_json(&h).iter().map(frame).collect(), feeder_task: false, clamp, stdout_cap: None, delay_bounded: false };
         match sched::replay(&env, &sch) {
             Err(e) => Some(("schedule:abort".to_string(), e)),
             Ok(o) => {
